@@ -39,6 +39,11 @@ for m in sorted(d for d in glob.glob(f'/tmp/seed/out{R}-{ID}/m*') if os.path.isd
     meta = {}
     try: meta = json.load(open(os.path.join(m, 'meta.json')))
     except Exception: pass
+    try:
+        prev = json.load(open(os.path.join(dest, 'meta.json')))
+        for keep in ('history', 'adapted'):
+            if keep in prev and keep not in meta: meta[keep] = prev[keep]
+    except Exception: pass
     meta['origin'] = 'fresh sub-agent given only the property text and a scratch worktree'
     meta['confirmed'] = dict(compiles_and_suite_passes=suite_ok, demo_differs_from_original_build=demo_differs, confirmation_log=sec.strip()[:1500])
     meta.setdefault('detection', {})[tier] = results
